@@ -189,6 +189,22 @@ EDITS = [
   "                        if info['used'] >= info['hwm']:\n                            pids.remove(pid)\n", "", 'C12'),
  ('bf-done-counted-twice', 'C12', 'tmgr/scheduler/backfilling.py',
   "                if uid in info['done']:\n                    # we don't need further state udates\n                    self._log.debug('upd task %s in done', uid)\n                    continue\n", "", 'C12'),
+ ('lm-mpirun-np-off-by-one', 'C09', 'agent/launch_method/mpirun.py',
+  "        else        : np = len(host_list)", "        else        : np = len(host_list) - 1 or 1", 'C09'),
+ ('lm-mpirun-keeps-state', 'C09', 'agent/launch_method/mpirun.py',
+  "        options = ''\n        if task_gpus", "        self._omplace = self._omplace + ' -x'\n        options = ''\n        if task_gpus", 'C09'),
+ ('lm-mpirun-dedups-hosts', 'C09', 'agent/launch_method/mpirun.py',
+  "            host_list.append(slot['node_name'])", "            if slot['node_name'] not in host_list: host_list.append(slot['node_name'])", 'C09'),
+ ('lm-ssh-last-host', 'C09', 'agent/launch_method/ssh.py',
+  "        if len(slots) != 1:\n            raise RuntimeError('ssh cannot run multi-rank tasks')\n\n        host = slots[0]['node_name']",
+  "        host = slots[-1]['node_name']", 'C09'),
+ ('lm-aprun-depth-as-ranks', 'C09', 'agent/launch_method/aprun.py',
+  "        cmd_options = '-n %s ' % ranks + \\\n                      '-d %s'  % cores_per_rank",
+  "        cmd_options = '-n %s ' % cores_per_rank + \\\n                      '-d %s'  % ranks", 'C09'),
+ ('lm-prte-np-from-nodes', 'C09', 'agent/launch_method/prte.py',
+  "        n_procs   = td['ranks']", "        n_procs   = len(set(s['node_name'] for s in slots)) or td['ranks']", 'C09'),
+ ('lm-mpiexec-hostfile-loses-multiplicity', 'C09', 'agent/launch_method/mpiexec.py',
+  "            host_slots[slot['node_name']] += 1\n\n        if mode == 0:", "            host_slots[slot['node_name']] = 1\n\n        if mode == 0:", 'C09'),
  ('master-exit-none-done', 'C05', 'raptor/master.py',
   "                if ret is None:\n                    ret = -1", "                if ret is None:\n                    ret = 0", '_result_cb'),
  ('agent-advance-pushes-failed', 'C05', 'utils/component.py',
